@@ -54,4 +54,25 @@ BENIGN = [
         ("prefix_width_min", "pwmin"), ("max_number", "maxn"), ("min_number", "minn"), ("num_items", "nitems"), ("sub_r", "subr"),
         ("main_tag", "mtag"), ("wrap_tag", "wtag"), ("colno", "cno"), ("pushed_style", "pst"),
     ]),
+    # ---- forms the round-6 rules must accept
+    dict(name="benign:finalise-label-built-first", props=["C08", "C01"], edits=[
+        (TR, 'TaggedLine::from_string(format!("[{}]: {}", idx + 1, s), &Default::default())',
+         'let label = format!("[{}]", idx + 1);\n                TaggedLine::from_string(format!("{}: {}", label, s), &Default::default())'),
+    ]),
+    dict(name="benign:flush_word-early-return-on-empty", props=["C03", "C01", "C11"], edits=[
+        (TR, "        if !self.word.is_empty() {\n            self.pre_wrapped = false;\n            let space_in_line",
+         "        if self.word.is_empty() {\n            self.wordlen = 0;\n            return Ok(());\n        }\n        {\n            self.pre_wrapped = false;\n            let space_in_line"),
+    ]),
+    dict(name="benign:stylesheets-for_each", props=["C18", "C17", "C19"], edits=[
+        (CSS, "            for css in styles {\n                // Ignore CSS parse errors.\n                let _ = result.add_author_css(&css);\n            }",
+         "            styles.iter().for_each(|css| {\n                // Ignore CSS parse errors.\n                let _ = result.add_author_css(css);\n            });"),
+    ]),
+    dict(name="benign:empty-table-shortcut", props=["C06", "C01", "C03"], edits=[
+        (LIB, "        // This will include 0 and the index after the last colspan.\n        let mut col_positions = BTreeSet::new();",
+         "        if rows.is_empty() {\n            return RenderTable { rows, num_columns: 0, size_estimate: Cell::new(None) };\n        }\n        // This will include 0 and the index after the last colspan.\n        let mut col_positions = BTreeSet::new();"),
+    ]),
+    dict(name="benign:break-estimate-via-constant", props=["C02", "C11", "C01"], edits=[
+        (LIB, "            Break => SizeEstimate {\n                size: 1,\n                min_width: 1,\n                prefix_size: 0,\n            },",
+         "            Break => {\n                const ONE_COLUMN: usize = 1;\n                SizeEstimate { size: ONE_COLUMN, min_width: ONE_COLUMN, prefix_size: 0 }\n            }"),
+    ]),
 ]
